@@ -36,7 +36,7 @@ from vf.sautil import Capture, mem_engine
 PROPERTY = "C17"
 LEVEL = "exploration"
 RULE = (
-    "histories of 5-40 invocations over 30 lambda sites defined in checks/c17.py (lambda_stmt, += links chosen outside the lambda, add_criteria with track_on / "
+    "histories of 5-40 invocations over 31 lambda sites defined in checks/c17.py (lambda_stmt, += links chosen outside the lambda, add_criteria with track_on / "
     "track_closure_variables=False, lambda in where(), with_loader_criteria(lambda), ORM lambda_stmt through Session, UPDATE/DELETE/INSERT lambdas, module global, "
     "explicit lambda_cache, documented-error shapes), closure values drawn per invocation: tagged ints/strings, IN lists of length 0-4, column / table choice, object "
     "attributes, optional-link choice. Non-trivial: some site is invoked >=2 times with different scalar values and >=1 structural change (column, table, list length, "
@@ -322,6 +322,17 @@ def s_closure_expr_link(p):
     return lam, lambda: select(ta.c.id, ta.c.y).where(crit, ta.c.id != w).order_by(ta.c.id), {"struct": ("col", col.name)}
 
 
+def s_expr_list(p):
+    """closure variables that are lists of SQL elements (columns; criteria carrying bound values)"""
+    cols = [ta.c.id, p.col]
+    crits = [ta.c.x > p.v1, ta.c.s != p.s]
+    return (
+        lambda: lambda_stmt(lambda: select(*cols).where(*crits).order_by(ta.c.id)),
+        lambda: select(*cols).where(*crits).order_by(ta.c.id),
+        {"struct": ("col", p.col.name)},
+    )
+
+
 def s_update(p):
     v, w, s = p.v1, p.v2, p.s
 
@@ -432,7 +443,7 @@ def s_none_eq(p):
 SITES = [
     s_scalar, s_two_scalars_string, s_links, s_in_list, s_not_in_list_link, s_column, s_column_link, s_table, s_table_link_count,
     s_where_lambda, s_where_lambda_column, s_global, s_track_on, s_obj_notrack, s_add_criteria_track_on, s_lambda_cache, s_limit_offset,
-    s_closure_expr, s_closure_expr_link, s_obj_attr, s_func_call, s_update, s_delete, s_insert, s_orm_links, s_orm_entity, s_orm_where_lambda, s_loader_criteria,
+    s_closure_expr, s_closure_expr_link, s_expr_list, s_obj_attr, s_func_call, s_update, s_delete, s_insert, s_orm_links, s_orm_entity, s_orm_where_lambda, s_loader_criteria,
     s_loader_criteria_entity, s_none_eq,
 ]
 NONE_SITE = SITES.index(s_none_eq)
